@@ -1,6 +1,7 @@
 //! Shared helpers for all harness domains (one binary per domain under src/bin/).
 #![allow(dead_code)]
 use std::sync::Arc;
+use lightning_signer::bitcoin::hashes::Hash as _;
 use std::time::Duration;
 
 use lightning_signer::bitcoin::secp256k1::PublicKey;
@@ -198,6 +199,51 @@ impl World {
     }
 }
 
+
+// ---------------------------------------------------------------- handler and invoices
+
+/// the node-level protocol handler around `node` (approves whatever reaches the approver)
+pub fn make_root_handler(node: &Arc<Node>, proto: u32) -> vls_protocol_signer::handler::RootHandler {
+    use vls_protocol::model;
+    use vls_protocol::msgs::{self, Message};
+    use vls_protocol_signer::approver::PositiveApprover;
+    use vls_protocol_signer::handler::{Handler, InitHandler, RootHandler};
+    let mut init = InitHandler::new(0, node.clone(), Arc::new(PositiveApprover()), proto);
+    let m = msgs::HsmdInit {
+        key_version: model::Bip32KeyVersion { pubkey_version: 0, privkey_version: 0 },
+        chain_params: lightning_signer::bitcoin::BlockHash::from_byte_array([0u8; 32]),
+        encryption_key: None,
+        dev_privkey: None,
+        dev_bip32_seed: None,
+        dev_channel_secrets: None,
+        dev_channel_secrets_shaseed: None,
+        hsm_wire_min_version: 2,
+        hsm_wire_max_version: proto,
+    };
+    init.handle(Message::HsmdInit(m)).expect("init");
+    let root: RootHandler = init.into();
+    root
+}
+
+/// a signed BOLT11 invoice for `hash`, created at `now_secs`
+pub fn make_bolt11(hash: [u8; 32], amount_msat: u64, now_secs: u64) -> lightning_signer::invoice::Invoice {
+    use lightning_signer::bitcoin::hashes::{sha256::Hash as Sha256Hash, Hash};
+    use lightning_signer::bitcoin::secp256k1::{Secp256k1, SecretKey};
+    use lightning_signer::lightning::types::payment::PaymentSecret;
+    use lightning_signer::lightning_invoice::{Currency, InvoiceBuilder};
+    let private_key = SecretKey::from_slice(&[42; 32]).unwrap();
+    lightning_signer::invoice::Invoice::Bolt11(
+        InvoiceBuilder::new(Currency::Regtest)
+            .description("verif".into())
+            .payment_hash(Sha256Hash::from_byte_array(hash))
+            .payment_secret(PaymentSecret([7; 32]))
+            .duration_since_epoch(Duration::from_secs(now_secs))
+            .min_final_cltv_expiry_delta(144)
+            .amount_milli_satoshis(amount_msat)
+            .build_signed(|h| Secp256k1::new().sign_ecdsa_recoverable(h, &private_key))
+            .unwrap(),
+    )
+}
 
 // ---------------------------------------------------------------- snapshots (C10 / C11 monitors)
 
